@@ -8,6 +8,10 @@ import (
 	"image/color"
 	"math"
 	"runtime"
+	"runtime/debug"
+	"syscall"
+	"time"
+	"unsafe"
 
 	"github.com/reactivego/ivg"
 	"github.com/reactivego/ivg/decode"
@@ -902,6 +906,49 @@ func measured(f func()) (alloc, stack uint64, panicked bool, msg string) {
 	return
 }
 
+// threadCPUTime reads CLOCK_THREAD_CPUTIME_ID (nanosecond resolution, charged
+// by the scheduler, not by timer ticks).
+func threadCPUTime() (time.Duration, bool) {
+	var ts syscall.Timespec
+	const clockThreadCPUTimeID = 3
+	if _, _, e := syscall.Syscall(syscall.SYS_CLOCK_GETTIME, clockThreadCPUTimeID, uintptr(unsafe.Pointer(&ts)), 0); e != 0 {
+		return 0, false
+	}
+	return time.Duration(ts.Nano()), true
+}
+
+// bestCPUTime runs f three times on a goroutine locked to its thread and
+// returns the smallest CPU time (user+system) the thread was charged.
+func bestCPUTime(ctx *Ctx, f func()) time.Duration {
+	best := time.Duration(math.MaxInt64)
+	done := make(chan struct{})
+	go func() {
+		defer close(done)
+		runtime.LockOSThread()
+		defer runtime.UnlockOSThread()
+		// no collection inside the timed region (its cost is not linear in the
+		// work done): one before each repetition, none during
+		defer debug.SetGCPercent(debug.SetGCPercent(-1))
+		for i := 0; i < 3; i++ {
+			runtime.GC()
+			a, ok := threadCPUTime()
+			if !ok {
+				best = 0 // no such clock here: the arm says nothing
+				return
+			}
+			guard(f)
+			b, _ := threadCPUTime()
+			d := b - a
+			if d < best {
+				best = d
+			}
+			ctx.Beat()
+		}
+	}()
+	<-done
+	return best
+}
+
 // c02LinearCase: "work and rasteriser activity are linear in input length".
 // Time is not a deterministic measure; the volume of memory a reader
 // allocates is, and it is where superlinear work shows first (copying of
@@ -979,6 +1026,33 @@ func c02LinearCase(ctx *Ctx, shape int) *report.Violation {
 			v.Signature = v.Invariant
 			return v
 		}
+		// Work that allocates nothing and recurses nowhere (moving an ever longer
+		// tail of a buffer, rescanning) shows in none of the counters above. The
+		// last resort is the CPU time of the reading thread (never the wall
+		// clock: a thread that waits is not charged), at sizes where a
+		// quadratic term dominates, best of three at each size: linear work
+		// gives 4x for 4x the input (up to ~6x when the larger input falls out
+		// of a cache level, and up to ~8x was seen for readers whose time is
+		// dominated by the harness's own recording buffers on a loaded machine),
+		// quadratic work 16x; the bound is 12x, only above 40 ms, and only if a
+		// second measurement says the same.
+		tn := 192 << 10
+		if ctx.Tier == "thorough" {
+			tn = 320 << 10
+		}
+		ts, tb := longStream(shape, tn), longStream(shape, 4*tn)
+		t1, t4 := bestCPUTime(ctx, func() { r.run(ts) }), bestCPUTime(ctx, func() { r.run(tb) })
+		slow := func() bool { return t1 > 0 && t4 > 40*time.Millisecond && t4 > 12*t1 }
+		if slow() {
+			// measured again before anything is said
+			t1, t4 = bestCPUTime(ctx, func() { r.run(ts) }), bestCPUTime(ctx, func() { r.run(tb) })
+		}
+		if slow() {
+			return lin(viol("C02", "linear-work", "%s: reading a %d-byte stream costs %v of CPU time, the same shape at %d bytes %v (%.1fx for 4x the input, best of three each; linear work gives about 4x, quadratic work 16x)", r.name, len(ts), t1, len(tb), t4, float64(t4)/float64(t1+1)))
+		}
+		if ctx.Stats != nil {
+			ctx.Stats.Max("max_cpu_time_growth_x100_for_4x_input", int64(100*float64(t4)/float64(t1+1)))
+		}
 		if ctx.Stats != nil {
 			ctx.Stats.Add("evaluations", 1)
 			ctx.Stats.Add("linear_work_measurements", 1)
@@ -1013,9 +1087,10 @@ func init() {
 					"files_read":               s.Counters["files_read"],
 					"exhaustive_short_streams": s.Counters["short_streams"],
 					"random_streams":           s.Counters["random_streams"],
-					"linear_work_measurements_(9 shapes x 4 readers at n and 4n bytes)": s.Counters["linear_work_measurements"],
-					"largest_allocation_growth_for_4x_the_input":                        fmt.Sprintf("%.2fx", float64(s.Counters["max_allocation_growth_x100_for_4x_input"])/100),
-					"largest_stack_growth_while_reading_the_4n_stream_bytes":            s.Counters["max_stack_growth_bytes_at_4n"],
+					"linear_work_measurements_(9 shapes x 4 readers at n and 4n bytes)":     s.Counters["linear_work_measurements"],
+					"largest_allocation_growth_for_4x_the_input":                            fmt.Sprintf("%.2fx", float64(s.Counters["max_allocation_growth_x100_for_4x_input"])/100),
+					"largest_stack_growth_while_reading_the_4n_stream_bytes":                s.Counters["max_stack_growth_bytes_at_4n"],
+					"largest_cpu_time_growth_for_4x_the_input_(thread CPU time, best of 3)": fmt.Sprintf("%.2fx", float64(s.Counters["max_cpu_time_growth_x100_for_4x_input"])/100),
 					"prefix_comparisons":  s.Counters["prefix_checks"],
 					"calls_delivered":     s.Counters["calls_delivered"],
 					"raster_ops_recorded": s.Counters["raster_ops"],
